@@ -131,7 +131,11 @@ fn peek_then(io: &mut ServerIo) -> bool {
     } else { true }
 }
 
-fn layout_of(s: &str) -> KeyboardLayout { match s { "fr" => KeyboardLayout::French, "de" => KeyboardLayout::German, _ => KeyboardLayout::US } }
+fn layout_of(s: &str) -> KeyboardLayout {
+    use KeyboardLayout::*;
+    match s { "ar" => Arabic, "bg" => Bulgarian, "zh" => ChineseUsKeyboard, "cs" => Czech, "da" => Danish, "de" => German, "el" => Greek, "es" => Spanish, "fi" => Finnish,
+              "fr" => French, "he" => Hebrew, "hu" => Hungarian, "is" => Icelandic, "it" => Italian, "ja" => Japanese, "ko" => Korean, "nl" => Dutch, "no" => Norwegian, _ => US }
+}
 
 fn emit_server_events(tr: &mut Tracer, io: &mut ServerIo) {
     for mut e in std::mem::replace(&mut io.events, Vec::new()) {
@@ -149,63 +153,118 @@ fn emit_server_events(tr: &mut Tracer, io: &mut ServerIo) {
     }
 }
 
+/// every builder call of the Connector, from a configuration record (password hash: can be set, never unset)
+fn configure(c: Connector, cfg: &Value) -> Connector {
+    let domain = cps_to_string(cfg.get("domain"));
+    let user = cps_to_string(cfg.get("user"));
+    let password = cps_to_string(cfg.get("password"));
+    let name = if cfg.get("name").is_some() { cps_to_string(cfg.get("name")) } else { "rdp-rs".to_string() };
+    let mut c = c.screen(gu(cfg, "w", 800) as u16, gu(cfg, "h", 600) as u16);
+    // the builder methods commute: the configuration must not depend on the order of the calls
+    if gb(cfg, "auto_first") {
+        c = c.auto_logon(gb(cfg, "auto")).blank_creds(gb(cfg, "blank")).set_restricted_admin_mode(gb(cfg, "admin")).credentials(domain.clone(), user.clone(), password.clone());
+    } else {
+        c = c.credentials(domain.clone(), user.clone(), password.clone()).set_restricted_admin_mode(gb(cfg, "admin")).auto_logon(gb(cfg, "auto")).blank_creds(gb(cfg, "blank"));
+    }
+    let mut c = c.check_certificate(gb(cfg, "check")).layout(layout_of(gs(cfg, "layout", "us"))).name(name).use_nla(gb(cfg, "nla"));
+    if gb(cfg, "hash") {
+        c = c.set_password_hash(crate::nlapeer::nt_hash(&password));
+    }
+    c
+}
+
 fn run_plan(plan: &Value, tr: &mut Tracer) {
     let cfg = plan.get("cfg").cloned().unwrap_or(json!({}));
-    let srv = plan.get("srv").cloned().unwrap_or(json!({}));
+    let mut srv = plan.get("srv").cloned().unwrap_or(json!({}));
     let (csock, ssock) = match UnixStream::pair() { Ok(p) => p, Err(_) => { tr.event(json!({"ev": "harness_error", "what": "socketpair"})); return; } };
     csock.set_read_timeout(Some(std::time::Duration::from_millis(4000))).ok();
     csock.set_write_timeout(Some(std::time::Duration::from_millis(4000))).ok();
     let srv2 = srv.clone();
-    let server = thread::Builder::new().stack_size(4 << 20).spawn(move || serve_connect(ServerIo::new(ssock), srv2)).unwrap();
+    let mut server = thread::Builder::new().stack_size(4 << 20).spawn(move || serve_connect(ServerIo::new(ssock), srv2)).unwrap();
     tr.event(json!({"ev": "reset", "run": plan.get("id"), "cfg": cfg, "srv": srv}));
     let api = gs(&cfg, "api", "connector").to_string();
     let domain = cps_to_string(cfg.get("domain"));
     let user = cps_to_string(cfg.get("user"));
     let password = cps_to_string(cfg.get("password"));
-    let name = if cfg.get("name").is_some() { cps_to_string(cfg.get("name")) } else { "rdp-rs".to_string() };
     let mut client: Option<RdpClient<UnixStream>> = None;
-    let (res, ek);
-    let alloc_base = crate::outcome::alloc_window_start();
+    let (mut res, mut ek): (String, String);
+    let mut alloc_base = crate::outcome::alloc_window_start();
     if api == "x224" {
-        let mask = gu(&cfg, "mask", 3) as u32;
+        // the x224 API takes the authentication context from the caller: with a `then` stage the SAME Ntlm object serves
+        // a second handshake (its exported session key must be a new nonce - the validator is told the previous one)
         let mut auth = Ntlm::new(domain.clone(), user.clone(), password.clone());
-        let out = guarded(|| x224::Client::connect(tpkt::Client::new(Link::new(Stream::Raw(csock))), mask, gb(&cfg, "check"), Some(&mut auth), gb(&cfg, "admin"), gb(&cfg, "blank")));
-        match out {
-            Outcome::Done(Ok(c)) => {
-                res = "ok".to_string(); ek = format!("{:?}", c.get_selected_protocols());
-                // hold the connection until the server has finished its observation, then close
-                let (io, _) = server.join().unwrap();
-                let mut io = io;
-                drop(c);
-                emit_server_events(tr, &mut io);
-                let (peak, maxreq) = crate::outcome::alloc_window_end(alloc_base);
-                tr.event(json!({"ev": "ret", "api": "connect", "res": res, "ek": ek, "peak": peak, "maxreq": maxreq}));
-                return;
+        let mut stage_cfg = cfg.clone();
+        let mut sock = Some(csock);
+        let mut stage = 0;
+        loop {
+            let mask = gu(&stage_cfg, "mask", 3) as u32;
+            let s0 = sock.take().unwrap();
+            let out = guarded(|| x224::Client::connect(tpkt::Client::new(Link::new(Stream::Raw(s0))), mask, gb(&stage_cfg, "check"), Some(&mut auth), gb(&stage_cfg, "admin"), gb(&stage_cfg, "blank")));
+            let mut held = None;
+            let ok;
+            match out {
+                Outcome::Done(Ok(c)) => { res = "ok".to_string(); ek = format!("{:?}", c.get_selected_protocols()); held = Some(c); ok = true; }
+                Outcome::Done(Err(e)) => { let r: rdp::model::error::RdpResult<()> = Err(e); let (a, b) = classify(&r); res = a.to_string(); ek = b; ok = false; }
+                Outcome::Panic(m) => { res = "panic".to_string(); ek = m; ok = false; }
             }
-            Outcome::Done(Err(e)) => { let r: rdp::model::error::RdpResult<()> = Err(e); let (a, b) = classify(&r); res = a.to_string(); ek = b; }
-            Outcome::Panic(m) => { res = "panic".to_string(); ek = m; }
+            // hold the connection until the server has finished its observation, then close
+            let (mut io, up) = server.join().unwrap();
+            drop(held);
+            let prev_key = io.events.iter().rev().find(|e| e.get("ev").and_then(|x| x.as_str()) == Some("nla_keys")).and_then(|e| e.get("exported").cloned());
+            emit_server_events(tr, &mut io);
+            let (peak, maxreq) = crate::outcome::alloc_window_end(alloc_base);
+            if ok { tr.event(json!({"ev": "ret", "api": "connect", "res": res, "ek": ek, "peak": peak, "maxreq": maxreq})); }
+            else { tr.event(json!({"ev": "ret", "api": "connect", "res": res, "ek": ek, "server_up": up, "peak": peak, "maxreq": maxreq})); }
+            stage += 1;
+            let then = match plan.get("then") { Some(t) if stage == 1 => t.clone(), _ => return };
+            let mut cfg2 = then.get("cfg").cloned().unwrap_or(json!({}));
+            if let Some(k) = prev_key { cfg2.as_object_mut().unwrap().insert("prev_exported".into(), k); }
+            srv = then.get("srv").cloned().unwrap_or(json!({}));
+            let (csock2, ssock2) = match UnixStream::pair() { Ok(p) => p, Err(_) => { tr.event(json!({"ev": "harness_error", "what": "socketpair"})); return; } };
+            csock2.set_read_timeout(Some(std::time::Duration::from_millis(4000))).ok();
+            csock2.set_write_timeout(Some(std::time::Duration::from_millis(4000))).ok();
+            let srv3 = srv.clone();
+            server = thread::Builder::new().stack_size(4 << 20).spawn(move || serve_connect(ServerIo::new(ssock2), srv3)).unwrap();
+            tr.event(json!({"ev": "reset", "run": format!("{}#2", plan.get("id").and_then(|x| x.as_str()).unwrap_or("")), "cfg": cfg2, "srv": srv}));
+            alloc_base = crate::outcome::alloc_window_start();
+            stage_cfg = cfg2;
+            sock = Some(csock2);
         }
     } else {
-        // the builder methods commute: the configuration must not depend on the order of the calls
-        let mut c = Connector::new().screen(gu(&cfg, "w", 800) as u16, gu(&cfg, "h", 600) as u16);
-        if gb(&cfg, "auto_first") {
-            c = c.auto_logon(gb(&cfg, "auto")).blank_creds(gb(&cfg, "blank")).set_restricted_admin_mode(gb(&cfg, "admin")).credentials(domain.clone(), user.clone(), password.clone());
-        } else {
-            c = c.credentials(domain.clone(), user.clone(), password.clone()).set_restricted_admin_mode(gb(&cfg, "admin")).auto_logon(gb(&cfg, "auto")).blank_creds(gb(&cfg, "blank"));
-        }
-        let mut c = c
-            .check_certificate(gb(&cfg, "check"))
-            .layout(layout_of(gs(&cfg, "layout", "us")))
-            .name(name.clone())
-            .use_nla(gb(&cfg, "nla"));
-        if gb(&cfg, "hash") {
-            c = c.set_password_hash(crate::nlapeer::nt_hash(&password));
-        }
+        let mut c = configure(Connector::new(), &cfg);
         let out = guarded(|| c.connect(csock));
         match out {
             Outcome::Done(Ok(cl)) => { res = "ok".to_string(); ek = String::new(); client = Some(cl); }
             Outcome::Done(Err(e)) => { let r: rdp::model::error::RdpResult<()> = Err(e); let (a, b) = classify(&r); res = a.to_string(); ek = b; }
             Outcome::Panic(m) => { res = "panic".to_string(); ek = m; }
+        }
+        if let Some(then) = plan.get("then") {
+            // the SAME Connector serves a second connection after being reconfigured: what it does then depends on its
+            // configuration at that moment only - the second connection is recorded as a run of its own
+            let (peak, maxreq) = crate::outcome::alloc_window_end(alloc_base);
+            let (mut io, up) = server.join().unwrap();
+            let prev_key = io.events.iter().rev().find(|e| e.get("ev").and_then(|x| x.as_str()) == Some("nla_keys")).and_then(|e| e.get("exported").cloned());
+            emit_server_events(tr, &mut io);
+            tr.event(json!({"ev": "ret", "api": "connect", "res": res, "ek": ek, "server_up": up, "peak": peak, "maxreq": maxreq}));
+            drop(client.take());
+            drop(io);
+            let mut cfg2 = then.get("cfg").cloned().unwrap_or(json!({}));
+            if let Some(k) = prev_key { cfg2.as_object_mut().unwrap().insert("prev_exported".into(), k); }
+            srv = then.get("srv").cloned().unwrap_or(json!({}));
+            let (csock2, ssock2) = match UnixStream::pair() { Ok(p) => p, Err(_) => { tr.event(json!({"ev": "harness_error", "what": "socketpair"})); return; } };
+            csock2.set_read_timeout(Some(std::time::Duration::from_millis(4000))).ok();
+            csock2.set_write_timeout(Some(std::time::Duration::from_millis(4000))).ok();
+            let srv3 = srv.clone();
+            server = thread::Builder::new().stack_size(4 << 20).spawn(move || serve_connect(ServerIo::new(ssock2), srv3)).unwrap();
+            tr.event(json!({"ev": "reset", "run": format!("{}#2", plan.get("id").and_then(|x| x.as_str()).unwrap_or("")), "cfg": cfg2, "srv": srv}));
+            alloc_base = crate::outcome::alloc_window_start();
+            c = configure(c, &cfg2);
+            let out = guarded(|| c.connect(csock2));
+            match out {
+                Outcome::Done(Ok(cl)) => { res = "ok".to_string(); ek = String::new(); client = Some(cl); }
+                Outcome::Done(Err(e)) => { let r: rdp::model::error::RdpResult<()> = Err(e); let (a, b) = classify(&r); res = a.to_string(); ek = b; }
+                Outcome::Panic(m) => { res = "panic".to_string(); ek = m; }
+            }
         }
     }
     let (peak, maxreq) = crate::outcome::alloc_window_end(alloc_base);
@@ -219,7 +278,8 @@ fn run_plan(plan: &Value, tr: &mut Tracer) {
     for a in 0..acts {
         if a > 0 {
             if !srv_send_read(&mut io, &mut client, tr, &rp::deactivate_all(rng_share), "DeactivateAll", 0) { return; }
-            rng_share[0] = rng_share[0].wrapping_add(1);
+            // xrdp / FreeRDP style servers keep one constant share id over all activations of a session
+            if !gb(&srv, "same_share") { rng_share[0] = rng_share[0].wrapping_add(1); }
         }
         let capv = gu(&srv, "capv", 0) as u8;
         if !srv_send_read(&mut io, &mut client, tr, &rp::demand_active(rng_share, &rp::server_caps(capv)), "DemandActive", 5) { return; }
